@@ -71,7 +71,11 @@ PLAIN = [A, AB, B, C_, T, TX, RM]
 ALL = [HEAD, *PLAIN, S1, L1, L2]
 BAD_NAMES = ["refs/heads/a..b", "refs/heads/.hid", "refs/heads/x.lock",
              "refs/heads/sp ace", "refs/heads/", "refs//double",
-             "refs/heads/ctl\x01", "refs/heads/q?", "notrefs/x"]
+             "refs/heads/ctl\x01", "refs/heads/q?", "notrefs/x",
+             "refs/heads/back\\slash", "refs/heads/at@{brace",
+             "refs/heads/tilde~1", "refs/heads/caret^", "refs/heads/co:lon",
+             "refs/heads/star*", "refs/heads/br[acket", "refs/heads/del\x7f",
+             "refs/heads/end.", "refs/heads/a/.hid", "@"]
 
 
 def val(n):
